@@ -14,7 +14,7 @@
              had not started transmission cut out (specification side: frames delimited by
              flush / poll / frames_drop, the send counter at each drop as oracle). *)
 From Coq Require Import List NArith ZArith Arith Bool Uint63.
-From SNT Require Import Base.Outcome Base.Report IO.IOQueue IO.TermIO.
+From SNT Require Import Base.Outcome Base.Report IO.IOQueue IO.TermIO IO.FrameSpec.
 Import ListNotations.
 
 Local Open Scope uint63_scope.
@@ -39,14 +39,6 @@ Fixpoint ilist_eqb (a b : list int) : bool :=
   | [], [] => true
   | x :: a', y :: b' => if x =? y then ilist_eqb a' b' else false
   | _, _ => false
-  end.
-
-(* if p is a prefix of l, what follows it *)
-Fixpoint strip_prefix (p l : list int) : option (list int) :=
-  match p, l with
-  | [], _ => Some l
-  | x :: p', y :: l' => if x =? y then strip_prefix p' l' else None
-  | _ :: _, [] => None
   end.
 
 (* ---------------------------------------------------------------- sessions *)
@@ -151,46 +143,15 @@ Definition model_session (s : session) : bool :=
   end.
 
 (* ---------------------------------------------------------------- specification side *)
-(* the written stream cut into frames at every flush / poll / frames_drop; a drop is recorded
-   with the number of bytes the tty had accepted when it happened *)
-Inductive item := IFrame (b : list int) | IDrop (sent : N).
-
-Definition close_frame (cur : list int) (acc : list item) : list item :=
-  match cur with [] => acc | _ => IFrame cur :: acc end.
-
-(* acc is kept in reverse order *)
-Fixpoint items_of (ops : list sop) (cur : list int) (acc : list item) : list item * list int :=
-  match ops with
-  | [] => (acc, cur)
-  | SW b _ :: r => items_of r (cur ++ unpack b) acc
-  | SF _ :: r => items_of r [] (close_frame cur acc)
-  | SP _ :: r => items_of r [] (close_frame cur acc)
-  | SD (Ob send _) :: r => items_of r [] (IDrop (N_of send) :: close_frame cur acc)
-  end.
-
-(* walk the frames in program order against the received stream.  pos = bytes kept so far =
-   the position in the delivered stream at which this frame starts if it is kept; the frame may
-   have been discarded only by a later drop at which no byte of it had gone out, i.e. the first
-   drop after it happened with at most pos bytes delivered *)
-Fixpoint next_drop (its : list item) : option N :=
-  match its with
-  | [] => None
-  | IDrop s :: _ => Some s
-  | IFrame _ :: r => next_drop r
-  end.
-
-Fixpoint match_frames (its : list item) (rest : list int) (pos : N) : bool :=
-  match its with
-  | [] => match rest with [] => true | _ => false end
-  | IDrop _ :: r => match_frames r rest pos
-  | IFrame f :: r =>
-      let droppable := match next_drop r with Some s => (s <=? pos)%N | None => false end in
-      match strip_prefix f rest with
-      | Some rest' =>
-          if match_frames r rest' (pos + N.of_nat (length f))%N then true
-          else if droppable then match_frames r rest pos else false
-      | None => if droppable then match_frames r rest pos else false
-      end
+(* IO/FrameSpec.v: the written stream cut into frames at every flush / poll / frames_drop; a drop is
+   recorded with the number of bytes the tty had accepted when it happened.  IO/FrameSpecProofs.v
+   proves that the check accepts every run of the model. *)
+Definition fop_of (s : sop) : fop int :=
+  match s with
+  | SW b _ => FW (unpack b)
+  | SF _ => FDelim
+  | SP _ => FDelim
+  | SD (Ob send _) => FDrop (N_of send)
   end.
 
 Fixpoint last_send (ops : list sop) (d : N) : N :=
@@ -202,13 +163,14 @@ Fixpoint last_send (ops : list sop) (d : N) : N :=
 Definition spec_session (s : session) : bool :=
   match s with
   | Sess p0 epi ops received =>
-      let '(acc, cur) := items_of ops [] [IFrame (unpack p0)] in
       let total := N.of_nat (length (unpack received)) in
-      (* dispose: frames_drop with the send counter as last observed (no poll happens in between),
-         then the closing sequence as one more frame *)
+      (* what the constructor sent is a frame of its own; dispose: frames_drop with the send counter
+         as last observed (no poll happens in between), then the closing sequence as one more frame *)
       let drop_at := last_send ops (N.of_nat (length (unpack p0))) in
-      let its := rev (IFrame (unpack epi) :: IDrop drop_at :: close_frame cur acc) in
-      match_frames its (unpack received) 0 && (0 <? total)%N
+      frame_check Uint63.eqb
+        (FW (unpack p0) :: FDelim :: map fop_of ops ++ [FDrop drop_at; FW (unpack epi)])
+        (unpack received)
+      && (0 <? total)%N
   end.
 
 Definition pty_check (s : session) : bool * bool := (model_session s, spec_session s).
